@@ -39,6 +39,8 @@ class Program:
                     self.impl_index.setdefault((tr, f.name), []).append(f)
             self.by_crate[c] = lst
         self._cg = None
+        from . import mir as _mir
+        _mir.set_program(self)
 
     # ---------------------------------------------------------------- lookup
     def find(self, pattern, crate=None):
